@@ -247,4 +247,73 @@ theorem origin_body_eq_model (win : Win) : originI skOrigin win = some win.origi
   rw [if_pos h1, h2, originGo_acc win 0 0]
   simp
 
+/-! ### `Window.Fill` and `Window.Clear`, run from their regenerated skeletons -/
+
+/-- `for v := 0; v < hi; v += 1 { body }` with the loop variable an `int` (fuel = iterations). -/
+def forInt {α : Type} (body : Int → List α) : Nat → Int → Int → List α
+  | 0, _, _ => []
+  | f + 1, v, hi => if v < hi then body v ++ forInt body f (v + 1) hi else []
+
+theorem forInt_eq {α : Type} (body : Int → List α) : ∀ (n : Nat) (k : Nat),
+    forInt body n (k : Int) ((k + n : Nat) : Int) = ((List.range n).map fun i => ((k + i : Nat) : Int)).flatMap body := by
+  intro n
+  induction n with
+  | zero => intro k; simp [forInt]
+  | succ n ih =>
+    intro k
+    have hlt : (k : Int) < ((k + (n + 1) : Nat) : Int) := by omega
+    have e : ((k + (n + 1) : Nat) : Int) = (((k + 1) + n : Nat) : Int) := by omega
+    simp only [forInt, hlt, if_true]
+    rw [show ((k : Int) + 1) = ((k + 1 : Nat) : Int) from by omega, e, ih (k + 1)]
+    rw [List.range_succ_eq_map]
+    simp [List.flatMap_cons, List.map_map, Function.comp_def, Nat.add_assoc, Nat.add_comm 1]
+
+theorem forInt_upTo {α : Type} (body : Int → List α) (n : Int) : forInt body n.toNat 0 n = (upTo n).flatMap body := by
+  by_cases hn : 0 ≤ n
+  · have := forInt_eq body n.toNat 0
+    have e : ((0 + n.toNat : Nat) : Int) = n := by omega
+    rw [e] at this
+    rw [show ((0 : Nat) : Int) = 0 from rfl] at this
+    rw [this, upTo]
+    congr 1
+    apply List.map_congr_left
+    intro i _
+    simp
+  · have : n.toNat = 0 := by omega
+    simp [this, forInt, upTo]
+
+/-- `Window.Fill` executed from the texts of its skeleton: `cols, rows := win.Size()`, rows outer, columns
+    inner, one `SetCell(col, row, cell)` per position. -/
+def fillI (sk : List (Nat × String × String)) (win : Win) (c : Cell) : Option (List Op) :=
+  if shapeOf sk = [(0, "assign"), (0, "for"), (1, "for"), (2, "call")] ∧
+     sk.map (·.2.2) = ["cols,rows:=win.Size()", "row:=0;row<rows;row+=1", "col:=0;col<cols;col+=1", "win.SetCell(col,row,cell)"] then
+    some (forInt (fun row => forInt (fun col => [({ col := col, row := row, cell := c } : Op)]) win.width.toNat 0 win.width)
+      win.height.toNat 0 win.height)
+  else none
+
+/-- **fill_body_eq_model**: the `SetCell` calls of `Window.Fill` = `fillOps`, as the interpretation of the
+    skeleton extracted on this run (negative or zero sizes: no call). -/
+theorem fill_body_eq_model (win : Win) (c : Cell) : fillI skFill win c = some (fillOps win c) := by
+  have h1 : shapeOf skFill = [(0, "assign"), (0, "for"), (1, "for"), (2, "call")] := by decide +kernel
+  have h2 : skFill.map (·.2.2) = ["cols,rows:=win.Size()", "row:=0;row<rows;row+=1", "col:=0;col<cols;col+=1", "win.SetCell(col,row,cell)"] := by
+    decide +kernel
+  unfold fillI
+  rw [if_pos ⟨h1, h2⟩, forInt_upTo]
+  simp only [fillOps, forInt_upTo]
+  have key : ∀ (row : Int) (xs : List Int),
+      xs.flatMap (fun col => [({ col := col, row := row, cell := c } : Op)]) = xs.map (fun col => { col := col, row := row, cell := c }) := by
+    intro row xs
+    induction xs with
+    | nil => rfl
+    | cons x xs ih => simp [List.flatMap_cons, ih]
+  simp only [key]
+
+/-- **clear_body_eq_model**: `Window.Clear` = `Fill` with `Cell{Character{" ", 1}}` (and the reset of the
+    graphics placements, C11Gfx), read from the skeleton extracted on this run. -/
+theorem clear_body_eq_model :
+    skClear = [(0, "call", "win.Fill(Cell{Character:Character{\" \",1},Style:Style{}})"), (0, "assign", "win.Vx.graphicsNext=[]*placement{}")] ∧
+    ∀ (win : Win) (s : Screen), clear win s = fill win s clearCell := by
+  refine ⟨by decide +kernel, fun _ _ => rfl⟩
+
+
 end VaxisModel.Props.C11Body
